@@ -37,6 +37,7 @@ type Case struct {
 	Files  map[string]string `json:"files"`
 	Mode   string            `json:"mode"`   // set | count
 	Append bool              `json:"append"` // -coverappend onto an existing profile from an earlier identical run
+	Stale  bool              `json:"stale"`  // (without -coverappend) a longer profile of some earlier, different run already exists at the path: it must be replaced, not overwritten in place
 }
 
 func genCase(t *rapid.T) Case {
@@ -46,7 +47,7 @@ func genCase(t *rapid.T) Case {
 	nitems := len(tree.Begin) + len(tree.Actions) + len(tree.End) + len(tree.Funcs)
 	nfiles := rapid.IntRange(1, 3).Draw(t, "nfiles")
 	c := Case{Tree: tree, Stdin: h.Str(awkgen.Input(t)), Files: map[string]string{"r0": awkgen.Input(t), "r1": awkgen.Input(t)},
-		Mode: rapid.SampledFrom([]string{"set", "count"}).Draw(t, "mode"), Append: rapid.IntRange(0, 3).Draw(t, "append") == 0}
+		Mode: rapid.SampledFrom([]string{"set", "count"}).Draw(t, "mode"), Append: rapid.IntRange(0, 3).Draw(t, "append") == 0, Stale: rapid.IntRange(0, 3).Draw(t, "stale") == 0}
 	for i := 0; i < nitems; i++ {
 		c.Split = append(c.Split, rapid.IntRange(0, nfiles-1).Draw(t, "file"))
 	}
@@ -303,6 +304,14 @@ func run(x *h.Ctx, c Case) string {
 	cargs := append([]string{"-coverprofile", "cover.out", "-covermode", c.Mode}, fargs...)
 	cargs = append(cargs, c.Args...)
 	var first cliResult
+	if c.Stale && !c.Append {
+		var old strings.Builder
+		old.WriteString("mode: count\n")
+		for i := 1; i <= 400; i++ {
+			fmt.Fprintf(&old, "/nonexistent/earlier-program.awk:%d.1,%d.20 1 12345678\n", i, i)
+		}
+		os.WriteFile(filepath.Join(dirB, "cover.out"), []byte(old.String()), 0o644)
+	}
 	if c.Append {
 		// an earlier identical run leaves a profile behind; the second run appends to it
 		first = runCLI(dirB, cargs, string(c.Stdin), c.Files)
@@ -498,5 +507,5 @@ func sortedFiles(m map[string]string) []string {
 }
 
 func init() {
-	h.Prop("coverage_transparent_exact", 2400, 40000, genCase, run)
+	h.PropIsolated("coverage_transparent_exact", 2400, 40000, genCase, run)
 }
